@@ -8,6 +8,7 @@ import (
 
 var v3Base = []string{"AV", "AC", "PR", "UI", "S", "C", "I", "A"}
 var v3Temporal = []string{"E", "RL", "RC"}
+var v3Modified = []string{"MAV", "MAC", "MPR", "MUI", "MS", "MC", "MI", "MA"}
 
 func specApp(name string, fr *FuncRun) *Term {
 	// (name <receiver struct term>) exactly as contract evaluation builds it
@@ -34,7 +35,14 @@ func v3Stages(v string, match string) []stage {
 	envS2 := func(fr *FuncRun, sc *stageCtx) []CaseInst {
 		var out []CaseInst
 		inner := specApp("envInner"+v+"K", fr)
-		for _, base := range objInsts(fr, sc, v3Temporal, nil) {
+		// two representatives of the metrics the outer stage does not enumerate: an object with
+		// non-zero modified impact (all codes 0) and one on the zero-impact branch (C = I = A = N)
+		fam := objInstsGround(fr, sc, v3Temporal, nil)
+		for _, z := range objInstsGround(fr, sc, v3Temporal, fixedAt(sc.rp, []string{"C", "I", "A"}, "N")) {
+			z.Label += "/zero-impact"
+			fam = append(fam, z)
+		}
+		for _, base := range fam {
 			for k := 0; k <= 100; k++ {
 				sub := map[*Term]*Term{}
 				for a, b := range base.Sub {
@@ -54,7 +62,7 @@ func v3Stages(v string, match string) []stage {
 	envS1 := func(fr *FuncRun, sc *stageCtx) []CaseInst {
 		var out []CaseInst
 		inner := specApp("envInner"+v+"K", fr)
-		for _, base := range objInsts(fr, sc, append(append([]string{}, v3Base...), "CR", "IR", "AR"), nil) {
+		for _, base := range objInsts(fr, sc, append(append([]string{}, v3Base...), "CR", "IR", "AR"), fixedAt(sc.rp, append(append([]string{}, v3Modified...), v3Temporal...), "X")) {
 			sub := base.Sub
 			memo := map[*Term]*Term{}
 			innerC := Subst(inner, base.Sub, memo)
@@ -108,7 +116,7 @@ func v3Stages(v string, match string) []stage {
 				return out
 			}},
 		{Name: "cut-inner-x-temporal", Pkg: v, Func: "(" + T + ").EnvironmentalScore", Match: match, Opts: RunOpts{OnCall: cutHook},
-			Space: "inner Roundup value 0.0..10.0 (101 tenths, cut) x E x RL x RC = 10100", Insts: envS2},
+			Space: "inner Roundup value 0.0..10.0 (101 tenths, cut) x E x RL x RC x {non-zero impact, zero impact} = 20200", Insts: envS2},
 		{Name: "all-effective-x-CR,IR,AR", Pkg: v, Func: "(" + T + ").EnvironmentalScore", Match: match, Opts: RunOpts{OnCall: cutHook}, Tier: "thorough",
 			Space: "8 effective base metrics x CR x IR x AR = 165888 (Modified metrics X, lifted by C10)", Insts: envS1, Extra: envS1Extra},
 	}
